@@ -51,11 +51,21 @@ func runC01(p *core.Program, r *core.Report) {
 		r.Note("draw site %s in %s (live=%v)", p.InstrPos(s), core.FuncName(s.Parent()), live[s.Parent()])
 	}
 
+	checkDrawRoutines(p, r, "R1.1", "R1.2", "R1.3")
+}
+
+// checkDrawRoutines applies the raw-word and schema rules to every function in
+// those roles, reporting under the given rule ids. Properties whose argument
+// rests on "every bounded draw is exactly uniform" (C02, C04, C06) re-run it
+// under their own rule id so that a biased draw routine introduced anywhere is
+// reported by them too, not only by C01.
+func checkDrawRoutines(p *core.Program, r *core.Report, r11, r12, r13 string) {
+	roles := GetRoles(p)
 	for _, fn := range roles.RawWord {
-		checkRawWord(p, r, fn, "R1.1")
+		checkRawWord(p, r, fn, r11)
 	}
 	for _, fn := range roles.BoundedDraw {
-		checkSchema(p, r, roles, fn)
+		checkSchema(p, r, roles, fn, r12, r13)
 	}
 }
 
@@ -303,7 +313,7 @@ func guardedErrNil(b *ssa.BasicBlock, errV ssa.Value) bool {
 const maxU32 = uint64(1<<32 - 1)
 
 // checkSchema verifies R1.2/R1.3 on a function that consumes raw words.
-func checkSchema(p *core.Program, r *core.Report, roles *Roles, fn *ssa.Function) {
+func checkSchema(p *core.Program, r *core.Report, roles *Roles, fn *ssa.Function, r12, r13 string) {
 	name := core.FuncName(fn)
 	pos := p.Pos(fn.Pos())
 	sig := fn.Signature
@@ -312,7 +322,7 @@ func checkSchema(p *core.Program, r *core.Report, roles *Roles, fn *ssa.Function
 		if cs := roles.RawCalls[fn]; len(cs) > 0 {
 			where = p.InstrPos(cs[0])
 		}
-		r.Fail("R1.2", name, "raw word consumed outside a rejection-sampling schema", where,
+		r.Fail(r12, name, "raw word consumed outside a rejection-sampling schema", where,
 			"this function uses the raw 32-bit word directly; every bounded choice must go through a func(n uint32) uint32 schema instance (signature here: "+sig.String()+")")
 		return
 	}
@@ -336,20 +346,20 @@ func checkSchema(p *core.Program, r *core.Report, roles *Roles, fn *ssa.Function
 	loops := core.Loops(fn)
 	rets := core.Returns(fn)
 	if len(rets) == 0 {
-		r.Unrecognised("R1.3", name, "no return", pos, "bounded-draw function never returns")
+		r.Unrecognised(r13, name, "no return", pos, "bounded-draw function never returns")
 	}
 	for _, ret := range rets {
 		rpos := p.InstrPos(ret)
 		v := ret.Results[0]
 		guards := core.Guards(ret.Block())
 		// (a) n >= 1
-		r.Check(hasGuardNPositive(guards, n), "R1.3", name, "return guarded by n>=1", rpos, "every return must lie beyond the n<1 rejection (panic) edge")
+		r.Check(hasGuardNPositive(guards, n), r13, name, "return guarded by n>=1", rpos, "every return must lie beyond the n<1 rejection (panic) edge")
 		// (b) table
 		entry, why := matchSchema(v, n, guards, isRawCall, loops)
 		if entry == "" {
-			r.Fail("R1.3", name, "return value matches no schema table entry", rpos, why)
+			r.Fail(r13, name, "return value matches no schema table entry", rpos, why)
 		} else {
-			r.Pass("R1.3", name, "return value is schema "+entry, rpos, why)
+			r.Pass(r13, name, "return value is schema "+entry, rpos, why)
 		}
 	}
 	// R1.2: the raw calls in this function are only used by the schema (each raw
@@ -381,7 +391,7 @@ func checkSchema(p *core.Program, r *core.Report, roles *Roles, fn *ssa.Function
 			}
 		}
 		visit(c, 0)
-		r.Check(ok, "R1.2", name, "raw word used only by the schema (phi/compare/mask/remainder)", p.InstrPos(c), "other use: "+bad)
+		r.Check(ok, r12, name, "raw word used only by the schema (phi/compare/mask/remainder)", p.InstrPos(c), "other use: "+bad)
 	}
 }
 
